@@ -38,6 +38,9 @@ ASSUMPTIONS = [
     "counters acceptable to SchemaSet.__init__, message types distinct) is evaluated by the compiled driver on the "
     "abstract schema of both dictionaries every run (reported under coverage.branches.schemaWF)",
     "tag 10 (CheckSum) is exempt in the specification as in the code: it is the framing layer's field (C01/C02/C10)",
+    "the model is a pure function of (dictionary, message); that FIXSchema.validate keeps no state between calls is not a "
+    "theorem but is checked every run: targeted 'valid in field A / invalid in field B' value pairs and a sample of all cases are "
+    "re-validated on fresh instances in same / reversed / shuffled order (signature C15-verdict-depends-on-history)",
 ]
 MODELLED_NOT_VERIFIED = [
     "C15: parse-time exceptions other than RuntimeError (unresolvable components) and AssertionError (duplicate "
@@ -69,6 +72,9 @@ class Loaded:
         with warnings.catch_warnings():
             warnings.simplefilter("ignore")
             self.lib = FIXSchema(path)
+            # value verdicts come from a second instance that never validates a message, so that state
+            # kept by the validator (memoisation, ...) cannot leak into the verdicts given to the model
+            self.vlib = FIXSchema(path)
         self.hdr = set(self.ref.header_tags())
         self.trl = set(X.member_tags(self.ref.trailer))
         self._vcache = {}
@@ -80,7 +86,7 @@ class Loaded:
         k = (tag, value)
         if k in self._vcache:
             return self._vcache[k]
-        f = self.lib._tag2field.get(tag)
+        f = self.vlib._tag2field.get(tag)
         if f is None:
             r = False
         else:
@@ -341,11 +347,11 @@ def invalid_value(ld, f, rng):
     return None
 
 
-def gen_item(ld, members, rng, depth, is_item, want_depth=0):
+def gen_item(ld, members, rng, depth, is_item, want_depth=0, mandatory_only=False):
     """nodes for a member list in dictionary order: required members, the first member of a group
     item, and a random subset of the optional ones"""
     nodes = []
-    p = min(0.5, 6.0 / max(1, len(members)))
+    p = 0.0 if mandatory_only else min(0.5, 6.0 / max(1, len(members)))
     deep = [i for i, m in enumerate(members) if m[0] == "g" and X.depth(m[4]) + 1 >= want_depth] if want_depth > 0 else []
     force = rng.choice(deep) if deep else None
     for i, m in enumerate(members):
@@ -363,8 +369,9 @@ def gen_item(ld, members, rng, depth, is_item, want_depth=0):
             if depth >= 4:
                 if not (m[3] or i == force):
                     continue
-            k = rng.choice([1, 1, 2, 3]) if (i == force or rng.random() < 0.93) else 0
-            items = [gen_item(ld, m[4], rng, depth + 1, True, want_depth - 1 if i == force else 0) for _ in range(k)]
+            k = 1 if mandatory_only else (rng.choice([1, 1, 2, 3]) if (i == force or rng.random() < 0.93) else 0)
+            items = [gen_item(ld, m[4], rng, depth + 1, True, want_depth - 1 if i == force else 0, mandatory_only)
+                     for _ in range(k)]
             nodes.append(["g", m[1], items])
     return nodes
 
@@ -548,6 +555,189 @@ def header_cases(ld, msg, rng):
     yield "checksum-as-group", 0, copy.deepcopy(base)[:-1] + [["g", "10", [[["p", "1", "x"]]]]]
 
 
+
+# ---------------------------------------------------------------------------------------------
+# validation must be a function of (dictionary, message): history / order independence
+# ---------------------------------------------------------------------------------------------
+POOL = ["0", "1", "-1", "00", "7", "31", "32", "Y", "N", "A", "abc", "a b", "1.5", "20230115", "202301", "10:20:30",
+        "20230115-10:20:30", "US", "USD", "XNYS", "2023w9", "0.0"]
+
+
+def find_path(ld, tag):
+    """(message, [group tags]) of a place where the field `tag` can legally occur, shallowest first"""
+    if tag in ld.hdr or tag in ld.trl:
+        for msg in ld.ref.messages:
+            if not any(m[3] for m in msg.members):
+                return msg, []
+        return ld.ref.messages[0], []
+    best = None
+    for msg in ld.ref.messages:
+        def walk(members, path):
+            nonlocal best
+            for m in members:
+                if m[0] == "f" and m[1] == tag:
+                    if best is None or len(path) < len(best[1]):
+                        best = (msg, list(path))
+                elif m[0] == "g" and len(path) < 3:
+                    walk(m[4], path + [m[1]])
+        walk(msg.members, [])
+        if best is not None and not best[1]:
+            break
+    return best
+
+
+def instance_with(ld, tag, value, rng):
+    """a message whose only possibly invalid part is `tag = value` (mandatory members only)"""
+    fp = find_path(ld, tag)
+    if fp is None:
+        return None
+    msg, path = fp
+    try:
+        nodes = gen_item(ld, msg.members, rng, 0, False, mandatory_only=True)
+    except RuntimeError:
+        return None
+    cur, members = nodes, msg.members
+    for g in path:
+        _, mem = _find(members, g)
+        node = next((n for n in cur if n[1] == g and n[0] == "g"), None)
+        if node is None or not node[2]:
+            try:
+                item = gen_item(ld, mem[4], rng, 1, True, mandatory_only=True)
+            except RuntimeError:
+                return None
+            if node is None:
+                node = ["g", g, [item]]
+                cur.append(node)
+            else:
+                node[2].append(item)
+        cur.sort(key=lambda n, ms=members: (_find(ms, n[1])[0] if _find(ms, n[1])[0] is not None else 10 ** 6))
+        cur, members = node[2][0], mem[4]
+    cur[:] = [n for n in cur if n[1] != tag] + [["p", tag, value]]
+    if path:
+        cur.sort(key=lambda n, ms=members: (_find(ms, n[1])[0] if _find(ms, n[1])[0] is not None else 10 ** 6))
+    return msg.msgtype, nodes
+
+
+def history_pairs(ld, rng, limit):
+    """(value, field where it is valid, field where it is not): first the pairs inside ONE datatype
+    (special cases such as EndSeqNo=0), then enumerations of one datatype, then pairs across datatypes"""
+    plain = [f for f in ld.ref.fields if not f.enums and f.ftype.upper() not in ("NUMINGROUP",) and find_path(ld, f.tag)]
+    by_type = {}
+    for f in plain:
+        by_type.setdefault(f.ftype.upper(), []).append(f)
+    same, cross = [], []
+    for v in POOL:
+        ok_t, bad_t = {}, {}
+        for t, fs in by_type.items():
+            good = [f for f in fs if ld.verdict(f.tag, v) is True]
+            bad = [f for f in fs if ld.verdict(f.tag, v) is False]
+            if good and bad:
+                for g in good[:3]:
+                    for b in (bad if len(bad) <= 8 else rng.sample(bad, 8)):
+                        same.append((v, g, b))
+            if good:
+                ok_t[t] = good
+            if bad:
+                bad_t[t] = bad
+        for t1 in ok_t:
+            for t2 in bad_t:
+                if t1 != t2:
+                    cross.append((v, rng.choice(ok_t[t1]), rng.choice(bad_t[t2])))
+    enums = {}
+    for f in ld.ref.fields:
+        if f.enums and find_path(ld, f.tag):
+            enums.setdefault(f.ftype.upper(), []).append(f)
+    en = []
+    for t, fs in enums.items():
+        for _ in range(6):
+            if len(fs) < 2:
+                break
+            a, b = rng.sample(fs, 2)
+            vs = [x for x in a.enums if x not in b.enums]
+            if vs:
+                en.append((rng.choice(vs), a, b))
+    rng.shuffle(cross)
+    rng.shuffle(en)
+    rest = en[: max(4, limit // 4)] + cross
+    return same + rest[: max(0, limit - len(same))]
+
+
+def history_cases(ctx, ld, rng):
+    """targeted cases: `valid-here` immediately followed by `invalid-there` (generation order = A, B)"""
+    out = []
+    for v, fa, fb in history_pairs(ld, rng, ctx.n(60, 400)):
+        a = instance_with(ld, fa.tag, v, rng)
+        b = instance_with(ld, fb.tag, v, rng)
+        if a is None or b is None:
+            continue
+        if not allowed(ld, a[0], a[1])[0] or allowed(ld, b[0], b[1])[0]:
+            continue
+        pair = f"{fa.ftype}:{fa.tag}={v!r}/{fb.ftype}:{fb.tag}"
+        out.append({"dict": ld.name, "msgtype": a[0], "nodes": a[1], "cls": "history-valid-here", "depth": 0, "pair": pair})
+        out.append({"dict": ld.name, "msgtype": b[0], "nodes": b[1], "cls": "history-invalid-there", "depth": 0, "pair": pair})
+    return out
+
+
+class Fresh:
+    """a brand-new FIXSchema instance of a dictionary (for impl_outcome)"""
+
+    def __init__(self, ld):
+        from asyncfix.protocol import FIXSchema
+
+        with warnings.catch_warnings():
+            warnings.simplefilter("ignore")
+            self.lib = FIXSchema(ld.path)
+
+
+def run_sequence(ld, seq):
+    fr = Fresh(ld)
+    return [impl_outcome(fr, c["msgtype"], c["nodes"]) for c in seq]
+
+
+def history_runs(ctx):
+    """re-validate a sample of the run's messages on fresh instances in other orders.
+    -> list of {"dict", "order", "idx": [case indices], "out": [outcomes]}"""
+    if getattr(ctx, "_c15_hist", None) is not None:
+        return ctx._c15_hist
+    cases = build_cases(ctx)
+    rng = random.Random(f"C15-history/{ctx.seed}")
+    runs = []
+    for dn in DICTS:
+        ld = load(dn)
+        idxs = [i for i, c in enumerate(cases) if c["dict"] == dn]
+        targeted = [i for i in idxs if cases[i]["cls"].startswith("history-")]
+        others = [i for i in idxs if not cases[i]["cls"].startswith("history-")]
+        sample = sorted(targeted + rng.sample(others, min(len(others), ctx.n(400, 4000))))
+        orders = {"same-order-fresh-instance": list(sample), "reversed": list(reversed(sample))}
+        for k in range(ctx.n(1, 3)):
+            sh = list(sample)
+            rng.shuffle(sh)
+            orders[f"shuffled-{k}"] = sh
+        for name, order in orders.items():
+            runs.append({"dict": dn, "order": name, "idx": order, "out": run_sequence(ld, [cases[i] for i in order])})
+        # every targeted pair on its own fresh instance, both orders
+        for a, b in zip(targeted[0::2], targeted[1::2]):
+            for name, order in (("pair-AB", [a, b]), ("pair-BA", [b, a])):
+                runs.append({"dict": dn, "order": name, "idx": order, "out": run_sequence(ld, [cases[i] for i in order])})
+    ctx._c15_hist = runs
+    return runs
+
+
+def shrink_history(ld, cases, order, pos, alone):
+    """smallest history found that changes the verdict of cases[order[pos]]: one predecessor, else the prefix"""
+    k = cases[order[pos]]
+    vals = {n[2] for n in _all_nodes(k["nodes"]) if n[0] == "p"}
+    preds = order[:pos]
+    preds = sorted(set(preds), key=lambda j: (0 if vals & {n[2] for n in _all_nodes(cases[j]["nodes"]) if n[0] == "p"} else 1,
+                                                  len(json.dumps(cases[j]["nodes"]))))
+    for j in preds[:300]:
+        out = run_sequence(ld, [cases[j], k])
+        if out[1] != alone:
+            return [cases[j]], out[1]
+    out = run_sequence(ld, [cases[j] for j in order[:pos]] + [k])
+    return [cases[j] for j in order[:pos]], out[-1]
+
+
 def build_cases(ctx):
     """all validation cases of this run: list of dicts {dict, msgtype, nodes, cls, depth}"""
     if getattr(ctx, "_c15_cases", None) is not None:
@@ -562,6 +752,8 @@ def build_cases(ctx):
                               "cls": "corpus:" + c.get("note", os.path.basename(p)), "depth": c.get("depth", 0)})
     n_valid = ctx.n(5, 40)
     allpos = ctx.tier == "thorough"
+    for dn in DICTS:
+        cases += history_cases(ctx, load(dn), rng)
     for dn in DICTS:
         ld = load(dn)
         for msg in ld.ref.messages:
@@ -783,6 +975,7 @@ def correspondence(ctx):
     impl = impl_all(ctx)
     dis, branches, seen = [], {}, set()
     wf = {}
+    model_out = {}
     by_dict = {}
     for i, c in enumerate(cases):
         by_dict.setdefault(c["dict"], []).append(i)
@@ -799,11 +992,22 @@ def correspondence(ctx):
         for i, ml in zip(idxs, rep[len(head):]):
             c = cases[i]
             il = impl[i]
+            model_out[i] = ml
             key = c["cls"].split(":")[0] + "/" + il
             branches[key] = branches.get(key, 0) + 1
             seen.add(lines[len(head) + idxs.index(i)] if False else (dn, c["msgtype"], json.dumps(c["nodes"])))
             if il != ml:
                 dis.append({"input": c, "model": ml, "impl": il})
+    # history / order independence: the model is a function of (dictionary, message), so every
+    # re-validation on another instance, in another order, must give the model's outcome again
+    hstats = {"runs": 0, "validations": 0, "targeted_pairs": sum(1 for c in cases if c["cls"] == "history-valid-here")}
+    for run in history_runs(ctx):
+        hstats["runs"] += 1
+        for pos, (i, got) in enumerate(zip(run["idx"], run["out"])):
+            hstats["validations"] += 1
+            if i in model_out and got != model_out[i]:
+                dis.append({"input": {"history_order": run["order"], "position": pos, "case": cases[i]},
+                            "model": model_out[i], "impl": got, "what": "outcome in this validation order"})
     pstats, pdis = parser_checks(ctx, drv)
     dis += pdis
     sizes = [sum(1 for _ in _all_nodes(c["nodes"])) for c in cases]
@@ -812,17 +1016,20 @@ def correspondence(ctx):
         depths[c["depth"]] = depths.get(c["depth"], 0) + 1
     ctx._c15_wf = wf
     return {
-        "evaluations": len(cases) + pstats["resolver_lines"] + pstats["perm_validations"] + pstats["permutations"],
+        "evaluations": len(cases) + hstats["validations"] + pstats["resolver_lines"] + pstats["perm_validations"] + pstats["permutations"],
         "distinct_nontrivial": len(seen),
         "rule": "validation cases = corpus + per message type of FIX44.xml (93) and TT-FIX44.xml (40): randomly populated valid "
         "instances (dictionary-directed, nesting depth forced 0..max, every 3rd shuffled at message level) + single-fault "
         "mutants per class x nesting depth (quick: one position class sample; thorough: all positions of 3 instances) + header / "
         "trailer / exception-kind cases + unknown message type; compared: ok / raised msgError / raised assertion / other. "
         "distinct = distinct (dictionary, msgtype, message tree). Plus: reference reader vs library objects, resolver model vs "
-        "library components (insertion order) and expanded bodies, permutations of <components>, small malformed dictionaries.",
+        "library components (insertion order) and expanded bodies, permutations of <components>, small malformed dictionaries. "
+        "Plus history independence: targeted pairs 'value valid in field A / invalid in field B' (same datatype first, e.g. EndSeqNo=0 "
+        "vs every other SEQNUM field; enumerations; across datatypes) validated A-then-B in the run and on fresh instances in both "
+        "orders, and a sample of all cases re-validated on fresh FIXSchema instances in the same, reversed and shuffled order.",
         "samples": [{"case": cases[i], "impl": impl[i]} for i in _sample_idx(len(cases))],
         "exhaustive": False,
-        "branches": {"outcome_by_class": dict(sorted(branches.items())), "schemaWF": wf, "parser": pstats},
+        "branches": {"outcome_by_class": dict(sorted(branches.items())), "schemaWF": wf, "parser": pstats, "history": hstats},
         "distribution": {"cases": len(cases), "nodes_per_message_max": max(sizes), "nodes_per_message_mean": round(sum(sizes) / len(sizes), 1),
                          "by_depth": depths},
         "disagreements": dis,
@@ -917,6 +1124,64 @@ def oracle(ctx, disagreements, broken):
         r = classify(ld, c, il)
         if r:
             failures.append({"signature": r[0], "what": r[1], "input": c, "expected": r[2], "observed": il})
+    # history clause: the verdict on a message is the same whatever was validated before on that instance
+    allc = build_cases(ctx)
+    main_out = impl_all(ctx)
+    seen_hist = set()
+    # a failure observed in the main run (one shared instance, generation order) that does not show on a
+    # fresh instance is a history failure, not a failure of the stateless clause it was classified under
+    failures.sort(key=lambda f: (f["signature"], len(json.dumps(f["input"], default=str))))
+    per_sig, kept, relabelled, dropped = {}, [], 0, 0
+    index_of = {id(c): k for k, c in enumerate(allc)}
+    for f in failures:
+        c = f["input"]
+        k = index_of.get(id(c))
+        per_sig[f["signature"]] = per_sig.get(f["signature"], 0) + 1
+        if k is None or per_sig[f["signature"]] > 25:
+            kept.append(f)
+            continue
+        ld = load(c["dict"])
+        alone = run_sequence(ld, [c])[0]
+        if alone == f["observed"]:
+            kept.append(f)
+            continue
+        seen_hist.add(k)
+        if relabelled >= 3:
+            dropped += 1
+            continue
+        relabelled += 1
+        prefix = [j for j in range(k) if allc[j]["dict"] == c["dict"]]
+        hist, got2 = shrink_history(ld, allc, prefix + [k], len(prefix), alone)
+        if got2 != alone:
+            kept.append({"signature": "C15-verdict-depends-on-history",
+                         "what": "the verdict on a message depends on what the same FIXSchema instance validated before",
+                         "input": {"dict": c["dict"], "msgtype": c["msgtype"], "nodes": c["nodes"],
+                                   "history": [{"msgtype": h["msgtype"], "nodes": h["nodes"]} for h in hist],
+                                   "order": "main run (generation order, shared instance)"},
+                         "expected": alone + " (fresh instance)", "observed": got2})
+    failures = kept
+    for run in history_runs(ctx):
+        ld = load(run["dict"])
+        for pos, (i, got) in enumerate(zip(run["idx"], run["out"])):
+            n += 1
+            if got == main_out[i] or i in seen_hist:
+                continue
+            seen_hist.add(i)
+            alone = run_sequence(ld, [allc[i]])[0]
+            if got != alone:
+                hist, got2 = shrink_history(ld, allc, run["idx"], pos, alone)
+            else:
+                # the main run (shared instance, generation order) is the one that was influenced
+                j = next(k for k in range(len(allc)) if k == i)
+                prefix = [k for k in range(j) if allc[k]["dict"] == run["dict"]]
+                hist, got2 = shrink_history(ld, allc, prefix + [i], len(prefix), alone)
+            if got2 != alone:
+                failures.append({"signature": "C15-verdict-depends-on-history",
+                                 "what": "the verdict on a message depends on what the same FIXSchema instance validated before",
+                                 "input": {"dict": run["dict"], "msgtype": allc[i]["msgtype"], "nodes": allc[i]["nodes"],
+                                           "history": [{"msgtype": h["msgtype"], "nodes": h["nodes"]} for h in hist],
+                                           "order": run["order"]},
+                                 "expected": alone + " (fresh instance)", "observed": got2})
     # parser clause: load result equals the dictionary, for every declaration order
     tmp = tempfile.mkdtemp(prefix="c15o-")
     try:
@@ -950,7 +1215,8 @@ def oracle(ctx, disagreements, broken):
     by_sig = {}
     for f in failures:
         by_sig[f["signature"]] = by_sig.get(f["signature"], 0) + 1
-    ctx.oracle_stats = {"evaluations": n, "failures": len(failures), "by_signature": by_sig, "searched_harder": bool(broken)}
+    ctx.oracle_stats = {"evaluations": n, "failures": len(failures), "by_signature": by_sig, "searched_harder": bool(broken),
+                        "history_failures_not_shrunk": dropped}
     # smallest witness first per signature
     failures.sort(key=lambda f: (f["signature"], len(json.dumps(f["input"], default=str))))
     return failures
@@ -969,6 +1235,12 @@ def replay(ctx, rp):
         print("replay:", p, "->", d)
         return bool(d)
     ld = load(inp["dict"])
+    if "history" in inp:
+        alone = run_sequence(ld, [inp])[0]
+        after = run_sequence(ld, list(inp["history"]) + [inp])[-1]
+        print("replay:", inp["dict"], inp["msgtype"], json.dumps(inp["nodes"])[:200], "alone ->", alone,
+              "| after", len(inp["history"]), "earlier validation(s), first:", json.dumps(inp["history"][0])[:200], "->", after)
+        return alone != after
     il = impl_outcome(ld, inp["msgtype"], inp["nodes"])
     r = classify(ld, inp, il)
     print("replay:", inp["dict"], inp["msgtype"], json.dumps(inp["nodes"])[:300], "->", il, r[0] if r else None)
